@@ -46,10 +46,17 @@ void vh_unpoison_input(vh_ctx_t * v) { ASAN_UNPOISON_MEMORY_REGION(v->inbuf, v->
 void (*vh_on_write_cb)(scpi_t * context, const char * data, size_t len);
 void (*vh_on_error_cb)(scpi_t * context, int err);
 static void decoy_maybe_from_write(vh_ctx_t * v);
+/* the array handed to SCPI_Input is the application's: firmware with ONE line buffer re-uses it as soon as the library calls back (to collect the
+ * response, to log the error). The library has copied what it needs before it calls anything. When enabled, the first callback inside an input
+ * call scribbles the chunk that call was given. */
+static char * cur_chunk; static size_t cur_chunk_len; static int scribble_chunks;
+void vh_scribble_chunk_in_callbacks(int on) { scribble_chunks = on; }
+static void chunk_scribble(void) { if (scribble_chunks && cur_chunk) { memset(cur_chunk, 0xDD, cur_chunk_len); cur_chunk = NULL; vh_count("kit.input_chunk_reused_by_a_callback", 1); } }
 static size_t cb_write(scpi_t * context, const char * data, size_t len) {
     vh_ctx_t * v = VH_OF(context);
     /* another port of the instrument (another context, another task) may produce its whole answer while this write is still waiting for its
      * transport: the bytes handed over here must not live in storage that the other context's results share */
+    chunk_scribble();
     decoy_maybe_from_write(v);
     vh_buf_add(&v->out, data, len);
     v->nwrite++;
@@ -67,6 +74,7 @@ static scpi_result_t cb_flush(scpi_t * context) {
 }
 static int cb_error(scpi_t * context, int_fast16_t err) {
     vh_ctx_t * v = VH_OF(context);
+    chunk_scribble();
     if (v->nerrs < VH_MAX_ERRS) v->errs[v->nerrs++] = (int16_t) err;
     v->nerrs_total++;
     if (v->log_enabled) vh_buf_printf(&v->log, "E %d\n", (int) err);
@@ -216,7 +224,9 @@ scpi_bool_t vh_input(vh_ctx_t * v, const void * data, size_t len) {
     {
         char * copy = (char *) malloc(len);
         memcpy(copy, data, len);
+        if (!decoy || v != decoy) { cur_chunk = copy; cur_chunk_len = len; }
         r = SCPI_Input(v->ctx, copy, (int) len);
+        if (cur_chunk == copy) cur_chunk = NULL;
         free(copy);
     }
     return r;
@@ -260,9 +270,38 @@ static void log_raw(vh_ctx_t * v, vh_stepres_t * r, scpi_t * context, const char
     if (v->log_enabled) { vh_buf_printf(&v->log, " off=%ld len=%zu \"", r->rawoff, len); if (ptr) vh_buf_add_escaped(&v->log, ptr, len); vh_buf_addc(&v->log, '"'); }
 }
 
+#if VH_LIB_C89
+/* The library was compiled as C90: its scpi_bool_t is an unsigned char, and a C90 application passes any non-zero value as "true"
+ * (flags & MASK). The harness itself is C99 (its scpi_bool_t is _Bool, which would normalise to 1), so in this flavour the readers are
+ * called through an unprototyped pointer with the truth value as an int: the library sees 1, 2, 0x10, 0x80 or 0xFF in turn. */
+typedef unsigned char (*vh_c90_fn)();
+#define VH_TRUTHY(m) ((m) ? (int) vh_truthy() : 0)
+static int vh_truthy(void) { static unsigned k; static const int t[5] = { 1, 2, 0x10, 0x80, 0xFF }; return t[k++ % 5]; }
+#define SCPI_ParamArbitraryBlock(...) (((vh_c90_fn) SCPI_ParamArbitraryBlock)(__VA_ARGS__))
+#define SCPI_ParamBool(...) (((vh_c90_fn) SCPI_ParamBool)(__VA_ARGS__))
+#define SCPI_ParamCharacters(...) (((vh_c90_fn) SCPI_ParamCharacters)(__VA_ARGS__))
+#define SCPI_ParamChoice(...) (((vh_c90_fn) SCPI_ParamChoice)(__VA_ARGS__))
+#define SCPI_ParamCopyText(...) (((vh_c90_fn) SCPI_ParamCopyText)(__VA_ARGS__))
+#define SCPI_ParamDouble(...) (((vh_c90_fn) SCPI_ParamDouble)(__VA_ARGS__))
+#define SCPI_ParamFloat(...) (((vh_c90_fn) SCPI_ParamFloat)(__VA_ARGS__))
+#define SCPI_ParamInt32(...) (((vh_c90_fn) SCPI_ParamInt32)(__VA_ARGS__))
+#define SCPI_ParamInt64(...) (((vh_c90_fn) SCPI_ParamInt64)(__VA_ARGS__))
+#define SCPI_ParamNumber(...) (((vh_c90_fn) SCPI_ParamNumber)(__VA_ARGS__))
+#define SCPI_ParamUInt32(...) (((vh_c90_fn) SCPI_ParamUInt32)(__VA_ARGS__))
+#define SCPI_ParamUInt64(...) (((vh_c90_fn) SCPI_ParamUInt64)(__VA_ARGS__))
+#define SCPI_Parameter(...) (((vh_c90_fn) SCPI_Parameter)(__VA_ARGS__))
+#define SCPI_ParamArrayInt32(...) (((vh_c90_fn) SCPI_ParamArrayInt32)(__VA_ARGS__))
+#define SCPI_ParamArrayUInt32(...) (((vh_c90_fn) SCPI_ParamArrayUInt32)(__VA_ARGS__))
+#define SCPI_ParamArrayInt64(...) (((vh_c90_fn) SCPI_ParamArrayInt64)(__VA_ARGS__))
+#define SCPI_ParamArrayUInt64(...) (((vh_c90_fn) SCPI_ParamArrayUInt64)(__VA_ARGS__))
+#define SCPI_ParamArrayFloat(...) (((vh_c90_fn) SCPI_ParamArrayFloat)(__VA_ARGS__))
+#define SCPI_ParamArrayDouble(...) (((vh_c90_fn) SCPI_ParamArrayDouble)(__VA_ARGS__))
+#else
+#define VH_TRUTHY(m) ((m) ? TRUE : FALSE)
+#endif
 static int run_step(scpi_t * context, vh_ctx_t * v, const vh_step_t * st, vh_stepres_t * r, int si) {
     scpi_bool_t ok = FALSE;
-    scpi_bool_t mand = st->mandatory ? TRUE : FALSE;
+    int mand = VH_TRUTHY(st->mandatory);
     memset(r, 0, sizeof *r);
     r->kind = st->kind;
     r->errs_before = (int) v->nerrs_total;
@@ -452,6 +491,7 @@ scpi_result_t vh_handler(scpi_t * context) {
     }
     if (v->log_enabled) { vh_buf_printf(&v->log, "H tag=%d hdr=", tag); vh_buf_add_escaped(&v->log, context->param_list.cmd_raw.data, context->param_list.cmd_raw.length); vh_buf_addc(&v->log, '\n'); }
     if (!sig) return SCPI_RES_OK;
+    chunk_scribble();
     if (vh_nested_hook) vh_nested_hook(context, 0);
     decoy_maybe();
     if (sig->want_numbers) {
